@@ -46,9 +46,9 @@ func init() {
 		QuickRuns: 4000, ThoroughRuns: 400000, QuickWall: 75 * time.Second, ThoroughWall: 20 * time.Minute,
 		Rule: "one evaluation = one seeded simulated PASS run: 1-3 concurrent pass-through streams (default or LCM mode), up to 9 messages each way, stream windows 1..8; in profile C06 the scheduler places terminal events (initiator half-close / cancel / transport break / send failure / unknown message kind; serving side EOF / error / break / send failure / unknown kind; failed open; stalled CloseSend) at arbitrary decisions; profile C06clean has none and checks completeness. distinct = distinct trace fingerprint; non-trivial = messages were relayed and (C06) a terminal event fired",
 		Real: passReal, Stub: passStub, Assume: commonAssume})
-	addSpec(&propSpec{ID: "C20", Profiles: []string{"C20"}, Level: "exploration",
+	addSpec(&propSpec{ID: "C20", Profiles: []string{"C20", "C20route"}, Level: "exploration",
 		QuickRuns: 4000, ThoroughRuns: 400000, QuickWall: 75 * time.Second, ThoroughWall: 20 * time.Minute,
-		Rule: "one evaluation = one seeded simulated PASS run in which 1-4 streams are opened with hostile cluster/shard metadata (boundary list incl. 0, -1, 1023..1025, 2^20 +-1, the int32 overflow threshold 238609294, 2^31-1, -2^31, values >= 2^32, non-numeric, missing, plus random huge and negative values; the range between 2^21 and the overflow threshold is excluded because it only costs memory), concurrently, followed by 1-2 well-formed streams; default and LCM modes; the stream observer's printer runs. distinct = distinct trace fingerprint; non-trivial = all hostile opens were issued and at least one message was relayed",
+		Rule: "one evaluation = one seeded simulated PASS run in which 1-4 streams are opened with hostile cluster/shard metadata (boundary list incl. 0, -1, 1023..1025, 2^20 +-1, the int32 overflow threshold 238609294, 2^31-1, -2^31, values >= 2^32, non-numeric, missing, plus random huge and negative values; the range between 2^21 and the overflow threshold is excluded because it only costs memory), concurrently, followed by 1-2 well-formed streams; default and LCM modes; the stream observer's printer runs. Profile C20route: the ROUTE world (routing mode, both servers) with 2-5 hostile opens - optionally carrying the intra-proxy header - injected among the regular streams; the regular streams must still complete the fault-free liveness tail, nothing may crash, and everything must be cleaned up at the end. distinct = distinct trace fingerprint; non-trivial = all hostile opens were issued and at least one message was relayed",
 		Real: passReal, Stub: passStub, Assume: commonAssume})
 	addSpec(&propSpec{ID: "C09", Profiles: []string{"C09"}, Level: "exploration",
 		QuickRuns: 3000, ThoroughRuns: 300000, QuickWall: 75 * time.Second, ThoroughWall: 20 * time.Minute,
